@@ -2,7 +2,7 @@
 # MANIFEST.setup_cmd: build the Coq development (full .vo) and the extracted model binary, offline.
 set -e
 cd "$(dirname "$0")"
-export PYTHONPATH=/repo:$(pwd)/harness PYTHONHASHSEED=0
+export PYTHONPATH=${VERIF_REPO:-/repo}:$(pwd)/harness PYTHONHASHSEED=0
 mkdir -p _build/ocaml _build/logs evidence replays coq/gen
 if [ -f harness/translate.py ]; then /venv/bin/python harness/translate.py 2>&1 | grep -v '^WARNING' || true; fi
 cd coq
